@@ -318,6 +318,8 @@ def run(ctx, P):
     r4.every_question_considered(ctx, P, "C06l")
     r4.question_name_not_gated_by_case(ctx, P, "C06m")
     r4.additional_dedupe_compares_data(ctx, P, "C06n")
+    r4.every_packet_dispatched(ctx, P, "C06o")
+    r4.collected_answers_are_sent(ctx, P, "C06p")
     f5.check_map_key_consistency(ctx, P, "C06i.F5.name-changes-keys", "name_changes", "DnsRegistry")
     f4.check_service_selected_by_resolved_name(ctx, P, "C06h")
     clause_g(ctx, P)
